@@ -3,6 +3,7 @@ from sweetpea._internal.block import Block
 from sweetpea._internal.cross_block import CrossBlock
 from sweetpea._internal.primitive import *
 from sweetpea._internal.constraint import *
+from sweetpea._internal.constraint import _KInARow
 from sweetpea._internal.sampling_strategy.scattered_map_core import (
     _Factor, _DerivedLevel, _WithinTrial, _Transition,
     encode_experiment, define_cross, execute, print_factors,
@@ -33,7 +34,7 @@ class SMGen(Gen):
             _cexit(f"Multiple-crossing blocks are not supported by SMGen.")
 
         for c in block.constraints:
-            if (isinstance(c, AtMostKInARow) or isinstance(c, AtLeastKInARow) or isinstance(c, ExactlyK)
+            if (isinstance(c, _KInARow) or isinstance(c, Sequential) or isinstance(c, LatinSquare)
                 or isinstance(c, Exclude) or isinstance(c, Pin)):
                 _cexit(f"{type(c).__name__} constraints are not supported by SMGen.")
 
@@ -44,9 +45,17 @@ class SMGen(Gen):
         if scale_one > 1:
             maximum_trials = block.trials_per_sample()
 
-        reset_state()
         design=block.orig_design
         crossing=block.orig_crossings[0]
+
+        if (block.trials_per_sample() - block.preamble_size()) > block.crossing_size() * block.crossing_weight():
+            _cexit(f"Repeated crossings are not supported by SMGen.")
+        # The weighting only lengthens the sequence when it is applied to a crossed factor
+        scale_factor = next((f for f in crossing if not isinstance(f.levels[0], DerivedLevel)), None)
+        if scale_one > 1 and scale_factor is None:
+            _cexit(f"MinimumTrials with a crossing of only derived factors is not supported by SMGen.")
+
+        reset_state()
         primary=[]
         derived=[]
         p_dc={}
@@ -85,9 +94,8 @@ class SMGen(Gen):
             else:
                 # For now, implement weighting for a non-derived factor by duplicating levels
                 for l in levels:
-                    for i in range(scale_one * l._weight):
+                    for i in range((scale_one if f is scale_factor else 1) * l._weight):
                         _levels.append(l.name)
-                scale_one = 1
 
             if d_type==None:
                 primary.append([name,_levels])
